@@ -678,6 +678,14 @@ func (e *Env) call(x *ECall) Val {
 		mt := m.G.Underlying().(*types.Map)
 		return Val{T: sx("select", sx("select", g.heap(e.st, mapHeapName(mt, "has"), g.mapHasSort(mt)), m.T), k.T), S: "Bool"}
 	}
+	if gs, ok := g.P.cs.Ghost[x.Fn]; ok {
+		v := arg(0)
+		t := v.T
+		if v.S == "Iface" {
+			t = sx("i-val", v.T)
+		}
+		return Val{T: sx("select", g.heap(e.st, "Gh."+x.Fn, "(Array Int "+gs+")"), t), S: gs}
+	}
 	if m, ok := g.P.cs.Macros[x.Fn]; ok {
 		if len(m.Params) != len(x.Args) {
 			e.fail("macro %s expects %d arguments", x.Fn, len(m.Params))
@@ -771,6 +779,15 @@ func (e *Env) modLocs(x Expr) []modLoc {
 		case "held":
 			v := e.tr(x.Args[0])
 			return []modLoc{{heap: "Held", base: v.T, sort: "Bool"}}
+		default:
+			if gs, ok := g.P.cs.Ghost[x.Fn]; ok {
+				v := e.tr(x.Args[0])
+				t := v.T
+				if v.S == "Iface" {
+					t = sx("i-val", v.T)
+				}
+				return []modLoc{{heap: "Gh." + x.Fn, base: t, sort: gs}}
+			}
 		case "mapof":
 			v := e.tr(x.Args[0])
 			mt := v.G.Underlying().(*types.Map)
@@ -1172,8 +1189,12 @@ func (g *Gen) call(c *ssa.CallCommon, pos token.Pos, isGo bool) Val {
 	if ct == nil {
 		// default contract: may panic, modifies everything, results arbitrary
 		g.check("nocontract", sk, "false", "call to "+ci.key+" which has no contract (may panic, may modify anything)")
-		g.havocAll("call")
+		htag := g.havocAll("call")
 		rs, r := mkResults()
+		na := g.declConst(g.fresh("alloc@call"), "Int")
+		g.assumeRaw(sx("<=", g.st.alloc, na))
+		g.st.alloc = na
+		g.registerTag(htag, na)
 		for _, v := range rs {
 			g.assume(g.typeInv(v, g.st))
 		}
@@ -1218,11 +1239,12 @@ func (g *Gen) call(c *ssa.CallCommon, pos token.Pos, isGo bool) Val {
 		g.check("panic", "callee."+sk, "false", "callee "+sk+" is declared maypanic")
 	}
 	// modifies
+	allTag := ""
 	if ct.ModAll {
 		if g.ct != nil && !g.ct.ModAll {
 			g.check("frame", "call."+sk, "false", "callee "+sk+" modifies * but the caller has a modifies clause")
 		}
-		g.havocAll("call")
+		allTag = g.havocAll("call")
 	} else {
 		for _, m := range ct.Modifies {
 			for _, ml := range env.modLocs(m.E) {
@@ -1232,16 +1254,13 @@ func (g *Gen) call(c *ssa.CallCommon, pos token.Pos, isGo bool) Val {
 		}
 	}
 	rs, r := mkResults()
-	for _, v := range rs {
-		g.assume(g.typeInv(v, g.st))
-	}
 	// allocation may have advanced
 	na := g.declConst(g.fresh("alloc@call"), "Int")
 	g.assumeRaw(sx("<=", g.st.alloc, na))
-	for _, v := range rs {
-		_ = v
-	}
 	g.st.alloc = na
+	if allTag != "" {
+		g.registerTag(allTag, na)
+	}
 	for _, v := range rs {
 		g.assume(g.typeInv(v, g.st))
 	}
@@ -1346,8 +1365,18 @@ func (g *Gen) havocMod(ml modLoc) {
 }
 
 // havocAll gives every heap a fresh value (callee without a usable frame).
-func (g *Gen) havocAll(tag string) {
+func (g *Gen) registerTag(tag, alloc string) {
+	g.tagAlloc[tag] = alloc
+	for k := range g.heapSort {
+		if t, ok := g.st.heaps[k]; ok && strings.HasSuffix(t, "@"+tag+"|") {
+			g.verAlloc[t] = alloc
+		}
+	}
+}
+
+func (g *Gen) havocAll(tag string) string {
 	t := g.fresh(tag)
+	defer func() {}()
 	var ks []string
 	for k := range g.heapSort {
 		ks = append(ks, k)
@@ -1358,6 +1387,7 @@ func (g *Gen) havocAll(tag string) {
 	}
 	g.st.pendAll = t
 	g.st.pend = map[string]string{}
+	return t
 }
 
 func (g *Gen) runDeferred(d deferred) {
@@ -1473,33 +1503,62 @@ func (g *Gen) appendOp(c *ssa.CallCommon) Val {
 	newLen := g.define("applen", "Int", sx("+", slen, n))
 	fits := g.define("appfits", "Bool", sx("<=", newLen, sx("s-cap", s.T)))
 	nr := g.newRef(g.st)
-	R := g.declConst(g.fresh("app"), "Slice")
-	A := g.declConst(g.fresh("appA"), "(Array Int "+es+")")
-	g.assume(and(
-		sx("=", sx("s-len", R), newLen),
-		implies(fits, and(sx("=", sx("s-arr", R), sx("s-arr", s.T)), sx("=", sx("s-off", R), sx("s-off", s.T)), sx("=", sx("s-cap", R), sx("s-cap", s.T)))),
-		implies(not(fits), and(sx("=", sx("s-arr", R), nr), sx("=", sx("s-off", R), "0"), sx("<=", newLen, sx("s-cap", R)), sx("<=", sx("s-cap", R), "281474976710656"))),
-		// appending nothing to a nil slice yields nil
-		implies(and(sx("=", n, "0"), sx("=", sx("s-arr", s.T), "0")), sx("=", R, s.T)),
-	))
 	old := sx("select", h, sx("s-arr", s.T))
-	roff := sx("s-off", R)
-	g.assume(fmt.Sprintf("(forall ((k Int)) (! (=> (and (<= 0 k) (< k %s)) (= (select %s (+ %s k)) (select %s (+ %s k)))) :pattern ((select %s (+ %s k)))))",
-		slen, A, roff, old, sx("s-off", s.T), A, roff))
-	if !srcIsString {
-		src := sx("select", h, sx("s-arr", t.T))
-		g.assume(fmt.Sprintf("(forall ((k Int)) (! (=> (and (<= 0 k) (< k %s)) (= (select %s (+ %s %s k)) (select %s (+ %s k)))) :pattern ((select %s (+ %s %s k)))))",
-			n, A, roff, slen, src, sx("s-off", t.T), A, roff, slen))
+	soff := sx("s-off", s.T)
+	arrR := g.define("apparr", "Int", sx("ite", fits, sx("s-arr", s.T), nr))
+	capNew := g.declConst(g.fresh("appcap"), "Int")
+	g.assume(and(sx("<=", newLen, capNew), sx("<=", capNew, "281474976710656")))
+	capR := sx("ite", fits, sx("s-cap", s.T), capNew)
+	// Model: a grown slice keeps its offset inside a new backing array whose
+	// content outside the appended range equals the old array's (elements
+	// between len and cap of a grown slice are unspecified by the language).
+	R := g.define("app", "Slice", sx("mk-slice", arrR, soff, newLen, capR))
+	var A string
+	if elems, ok := g.constVarargs(c.Args[1], h); ok {
+		A = old
+		for i, e := range elems {
+			A = sx("store", A, sx("+", soff, slen, fmt.Sprint(i)), e)
+		}
+		A = g.define("appA", "(Array Int "+es+")", A)
+	} else {
+		A = g.declConst(g.fresh("appA"), "(Array Int "+es+")")
+		if !srcIsString {
+			src := sx("select", h, sx("s-arr", t.T))
+			g.assume(fmt.Sprintf("(forall ((k Int)) (! (=> (and (<= 0 k) (< k %s)) (= (select %s (+ %s %s k)) (select %s (+ %s k)))) :pattern ((select %s (+ %s %s k)))))",
+				n, A, soff, slen, src, sx("s-off", t.T), A, soff, slen))
+		}
+		g.assume(fmt.Sprintf("(forall ((k Int)) (! (=> (or (< k (+ %s %s)) (>= k (+ %s %s))) (= (select %s k) (select %s k))) :pattern ((select %s k))))",
+			soff, slen, soff, newLen, A, old, A))
 	}
-	g.assume(implies(fits, fmt.Sprintf("(forall ((k Int)) (! (=> (or (< k (+ %s %s)) (>= k (+ %s %s))) (= (select %s k) (select %s k))) :pattern ((select %s k))))",
-		sx("s-off", s.T), slen, sx("s-off", s.T), newLen, A, old, A)))
 	if hn == "El.uint8" && !srcIsString {
 		// ghost: the abstract byte string of the result is the concatenation
-		g.assume(sx("=", sx("bs", A, roff, newLen), sx("cat", sx("bs", old, sx("s-off", s.T), slen), sx("bs", sx("select", h, sx("s-arr", t.T)), sx("s-off", t.T), n))))
+		g.assume(sx("=", sx("bs", A, soff, newLen), sx("cat", sx("bs", old, soff, slen), sx("bs", sx("select", h, sx("s-arr", t.T)), sx("s-off", t.T), n))))
 	}
-	// when nothing is appended and the slice is nil the heap is unchanged
-	g.setHeap(g.st, hn, hs, sx("ite", sx("=", sx("s-arr", R), "0"), h, sx("store", h, sx("s-arr", R), A)))
+	g.setHeap(g.st, hn, hs, sx("ite", sx("=", arrR, "0"), h, sx("store", h, arrR, A)))
 	return Val{T: R, S: "Slice", G: c.Args[0].Type()}
+}
+
+// constVarargs recognises append(s, e0, ..., eN-1): the second argument is a
+// full slice of a fresh fixed-size array; its elements are read directly.
+func (g *Gen) constVarargs(v ssa.Value, h string) ([]string, bool) {
+	sl, ok := v.(*ssa.Slice)
+	if !ok || sl.Low != nil || sl.High != nil || sl.Max != nil {
+		return nil, false
+	}
+	al, ok := sl.X.(*ssa.Alloc)
+	if !ok {
+		return nil, false
+	}
+	at, ok := al.Type().Underlying().(*types.Pointer).Elem().Underlying().(*types.Array)
+	if !ok || at.Len() > 16 {
+		return nil, false
+	}
+	ref := g.val(al)
+	var out []string
+	for i := int64(0); i < at.Len(); i++ {
+		out = append(out, sx("select", sx("select", h, ref.T), fmt.Sprint(i)))
+	}
+	return out, true
 }
 
 func (g *Gen) copyOp(c *ssa.CallCommon) Val {
@@ -1527,6 +1586,12 @@ func (g *Gen) copyOp(c *ssa.CallCommon) Val {
 	}
 	g.assume(fmt.Sprintf("(forall ((k Int)) (! (=> (or (< k %s) (>= k (+ %s %s))) (= (select %s k) (select %s k))) :pattern ((select %s k))))",
 		doff, doff, n, A, old, A))
+	if hn == "El.uint8" && s.S == "Slice" {
+		// ghost: abstract byte strings of the copied prefix and of the untouched suffix
+		src := sx("select", h, sx("s-arr", s.T))
+		g.assume(sx("=", sx("bs", A, doff, n), sx("bs", src, sx("s-off", s.T), n)))
+		g.assume(implies(sx("=", n, sx("s-len", d.T)), sx("=", sx("bs", A, doff, sx("s-len", d.T)), sx("bs", src, sx("s-off", s.T), n))))
+	}
 	save := g.cur
 	g.cur = g.define("r", "Bool", and(g.cur, sx(">", n, "0")))
 	g.frameCheck(hn, sx("s-arr", d.T), "", LElem)
